@@ -61,6 +61,9 @@ func scenarios(tier string) []vlib.Scenario {
 	// redial budget (8 attempts, 1 s apart) must not govern Conn.Close or a call with a context
 	out = append(out, vlib.Scenario{Name: params{"closeoutage-rt", 0, 0}.name(), P: params{"closeoutage-rt", 0, 0}})
 	out = append(out, vlib.Scenario{Name: params{"closeoutage-rt", 0, 1}.name(), P: params{"closeoutage-rt", 0, 1}})
+	// ... and the peer accepts the transport's redial but never sends the first message the transport waits for
+	out = append(out, vlib.Scenario{Name: params{"closeoutage-rt-silent", 0, 0}.name(), P: params{"closeoutage-rt-silent", 0, 0}})
+	out = append(out, vlib.Scenario{Name: params{"closeoutage-rt-silent", 0, 1}.name(), P: params{"closeoutage-rt-silent", 0, 1}})
 	// the peer stops reading while Close flushes: the chunk write stalls; the keep-alive is slow (20 s), the stream's close
 	// timeout (3 s) governs a Close without deadline
 	out = append(out, vlib.Scenario{Name: params{"upclose-stalledwrite", 0, 0}.name(), P: params{"upclose-stalledwrite", 0, 0}})
@@ -85,7 +88,7 @@ func config(sc vlib.Scenario, tier string) vsched.Config {
 	cfg.Budget[vsched.BudP] = p.P
 	cfg.Budget[vsched.BudF] = p.F
 	cfg.Scope = func(site string) bool {
-		if p.API == "closeoutage-rt" && strings.HasPrefix(site, "transport/reconnect.") {
+		if strings.HasPrefix(p.API, "closeoutage-rt") && strings.HasPrefix(site, "transport/reconnect.") {
 			return true
 		}
 		return strings.HasPrefix(site, "iscp.") || strings.HasPrefix(site, "wire.(*ClientConn).sendRequest") || strings.HasPrefix(site, "wire.(*ClientConn).read")
@@ -287,7 +290,7 @@ func (w *world) timedBackground(name string, bound time.Duration, f func(ctx con
 }
 
 func (w *world) main() {
-	if w.p.API == "closeoutage-rt" {
+	if strings.HasPrefix(w.p.API, "closeoutage-rt") {
 		w.WrapDialer = func(d transport.Dialer) transport.Dialer {
 			return transport.DialerFunc(func(cfg transport.DialConfig) (transport.Transport, error) {
 				return reconnect.Dial(reconnect.DialConfig{Dialer: d, DialConfig: cfg, MaxReconnectAttempts: 8, ReconnectInterval: time.Second})
@@ -429,8 +432,8 @@ func (w *world) main() {
 		w.timed("Conn.Close", callTimeout, false, func(ctx context.Context) error { return w.Conn.Close(ctx) })
 		pwg.Wait()
 		api = "connclose"
-	case "closeoutage-rt":
-		w.unreachable = true
+	case "closeoutage-rt", "closeoutage-rt-silent":
+		w.unreachable = api == "closeoutage-rt"
 		w.B.Cut(w.B.Live())
 		what := vsched.Choose("what", 2)
 		if vsched.Choose("close-when", 2) == 1 {
